@@ -23,11 +23,14 @@ type Part struct {
 
 // Driver describes the check of one property.
 type Driver struct {
-	ID          string
-	Technique   string
-	Rule        string
-	Assumptions []string
-	Parts       []Part
+	ID        string
+	Technique string
+	// HangIsViolation: the property states termination, so an execution that never returns is a
+	// violation (otherwise it is an engine error).
+	HangIsViolation bool
+	Rule            string
+	Assumptions     []string
+	Parts           []Part
 }
 
 var Registry = map[string]*Driver{}
@@ -57,6 +60,8 @@ func Cases[T any](c *core.Ctx, gen func(yield func(T) bool), fn func(c *core.Ctx
 		if i&63 == 0 && c.Expired() {
 			return false
 		}
+		core.SetCurrentCase(t)
+		core.Tick()
 		fn(c, t)
 		return true
 	})
